@@ -130,7 +130,7 @@ func NewEngine(cfg Config, r *lib.RNG, driverPath, scratch string, res *lib.Resu
 		for _, c := range []struct {
 			name string
 			on   bool
-		}{{"leaffix", lf}, {"sysprobefix", sp}, {"historderfix", ho}, {"migvalfix", migValFix()}} {
+		}{{"leaffix", lf}, {"sysprobefix", sp}, {"historderfix", ho}, {"migvalfix", migValFix()}, {"dupdeclfix", dupDeclFix()}} {
 			flag := "0"
 			if c.on {
 				flag = "1"
@@ -700,6 +700,37 @@ func probeVariant() (leafFix, sysProbeFix, histOrderFix bool) {
 	})
 	return leafFixVal, sysProbeVal, histOrdVal
 }
+
+// dupDeclFix: the legacy backend reverts a block that lists a class hash twice (7460746).
+func dupDeclFix() bool {
+	probeVariant()
+	dupDeclOnce.Do(func() {
+		initOnce()
+		g := lib.NewChainGen(lib.NewRNG(1), false, lib.DefaultGenOptions())
+		c := hx(&cairo0Fxs[2])
+		d, err := decodeDiff("0.13.2", "c0 "+c+" c0 "+c)
+		if err != nil {
+			probeErr = fmt.Errorf("dupDeclFix probe diff: %w", err)
+			return
+		}
+		if _, err := g.Next(&lib.BlockSpec{Version: d.Version, Diff: d.Diff, Classes: d.Classes, NoTxs: true}); err != nil {
+			probeErr = fmt.Errorf("dupDeclFix probe block: %w", err)
+			return
+		}
+		err = g.Revert()
+		if err != nil && !strings.Contains(err.Error(), "remove declared classes: get class") {
+			probeErr = fmt.Errorf("dupDeclFix probe: unexpected revert error: %w", err)
+			return
+		}
+		dupDeclVal = err == nil
+	})
+	return dupDeclVal
+}
+
+var (
+	dupDeclOnce sync.Once
+	dupDeclVal  bool
+)
 
 // migValFix: the tree stores the hash a CASM migration carries (probeVariant must have run).
 func migValFix() bool { probeVariant(); return migValVal }
